@@ -254,6 +254,34 @@ func runC01(r *Run) {
 		}
 		r.Floor("R14", "ApplyMessageWithConfig call sites in consensus scope", nT, 2)
 	}
+	r.Rule("R15", "PATH.begin-block-gas-is-not-left-on-the-block-context: baseapp runs the begin blockers on the block's deliver context, whose gas meter is never reset, and reports that meter's reading as GasUsed of every transaction that fails before the ante handler installs its own meter (undecodable bytes, an early-rejected message) — adding it to the block gas meter, from which x/feemarket derives the next base fee. What the begin blockers consume depends on the process: x/capability's InitMemStore and x/upgrade's downgrade check run only in the first BeginBlock after a start. So the app's BeginBlocker hands the context back with the meter refunded by what was consumed (RefundGas(GasConsumed())) on every return — otherwise one such transaction in a block (any proposer can include it) gives a restarted node another GasUsed, block gas, base fee and app hash")
+	if bb, ok := P.FnOK("(*app.Haqq).BeginBlocker"); ok {
+		isRefund := func(in ssa.Instruction) bool {
+			c, ok := in.(ssa.CallInstruction)
+			if !ok || callInfo(c).Name != "RefundGas" {
+				return false
+			}
+			for _, a := range c.Common().Args {
+				if backSlice(a).HasCall(func(g CallInfo) bool { return g.Name == "GasConsumed" }) {
+					return true
+				}
+			}
+			return false
+		}
+		isMM := isCallMatching(func(ci CallInfo) bool { return ci.Name == "BeginBlock" })
+		var w []ssa.Instruction
+		for _, mm := range findCalls(bb, func(ci CallInfo) bool { return ci.Name == "BeginBlock" }) {
+			if p := (PathQuery{Fn: bb, Start: mm, Block: isRefund, Target: func(x ssa.Instruction) bool { _, ok := x.(*ssa.Return); return ok }}).Search(); p != nil {
+				w = p
+			}
+		}
+		n := len(findCalls(bb, func(ci CallInfo) bool { return ci.Name == "BeginBlock" }))
+		_ = isMM
+		r.Check(w == nil && n >= 1, "R15", fnID(bb)+"#meter-refunded-after-the-begin-blockers", P.Pos(fnPos(bb)), "every return after the module manager's BeginBlock passes RefundGas(GasConsumed())",
+			"the app's BeginBlocker returns with the begin blockers' gas still on the block context's meter: baseapp charges it to transactions that fail before the ante handler, and its amount depends on whether the process was restarted since the last block", P.witness(w)...)
+	} else {
+		r.Bad("R15", "anchor/(*app.Haqq).BeginBlocker", "", "not found")
+	}
 	r.Rule("R13", "PATH.optional-recipient-dereferenced-under-guard: the tabled observer sites of R8 (the node-local evm.tracer selects the logger handed to the interpreter) are 'observers' only as long as they cannot fail: a panic in one of them is recovered per transaction by BaseApp, so only the node with that setting reports the transaction as failed. In consensus scope the result of a message's To() — nil for a contract creation — is dereferenced only over the non-nil edge of a comparison of To() with nil (the access-list tracer was built with *msg.To() unconditionally: every contract creation failed on nodes configured with it)")
 	{
 		nD := 0
